@@ -13,7 +13,7 @@ from .tags_python import IMPLS, REQUIRES, universe
 
 PLATFORMS = [None, "manylinux_2_17_x86_64", "manylinux_2_28_x86_64", "manylinux_2_5_x86_64", "manylinux_2_17_aarch64", "manylinux_2_35_aarch64",
              "musllinux_1_1_x86_64", "musllinux_1_2_x86_64", "musllinux_1_2_aarch64", "macos_10_9_x86_64", "macos_10_15_x86_64", "macos_11_0_x86_64",
-             "macos_14_0_x86_64", "macos_11_0_arm64", "macos_14_0_arm64", "windows_amd64", "windows_x86", "windows_arm64", "linux", "macos", "alpine"]
+             "macos_14_0_x86_64", "macos_11_0_arm64", "macos_14_0_arm64", "macos_12_3_arm64", "macos_14_2_arm64", "macos_13_1_x86_64", "macos_10_12_x86_64", "windows_amd64", "windows_x86", "windows_arm64", "linux", "macos", "alpine"]
 PROBE = [Version(f"{x}.{y}.{z}") for x in (2, 3) for y in range(0, 22) for z in range(0, 10)] + [Version("4.0.0")]
 
 
